@@ -60,15 +60,33 @@ func (k *Key) UnmarshalXML(d *xml.Decoder, start xml.StartElement) error {
 		return errTrustElement
 	}
 
+	// Read the tokens ourselves instead of using chardata to make sure we
+	// consume the entire element and if anything that's not base64 encoded has
+	// been smuggled into it somehow we have an error on decoding.
+	// (innerxml cannot be used: it is empty when decoding from a token stream.)
 	trust := struct {
-		// Use innerxml instead of chardata to make sure we consume the entire
-		// element and if anything that's not base64 encoded has been smuggled into
-		// it somehow we have an error on decoding.
-		Inner []byte `xml:",innerxml"`
+		Inner []byte
 	}{}
-	err := d.DecodeElement(&trust, &start)
-	if err != nil {
-		return err
+	for {
+		tok, err := d.Token()
+		if err != nil {
+			return err
+		}
+		if _, ok := tok.(xml.EndElement); ok {
+			break
+		}
+		switch t := tok.(type) {
+		case xml.CharData:
+			trust.Inner = append(trust.Inner, t...)
+		case xml.StartElement:
+			// Not base64: makes the decoding below fail at this position.
+			trust.Inner = append(trust.Inner, '<')
+			if err = d.Skip(); err != nil {
+				return err
+			}
+		default:
+			trust.Inner = append(trust.Inner, '<')
+		}
 	}
 	expectedLen := base64.StdEncoding.DecodedLen(len(trust.Inner))
 	if len(k.KeyID) < expectedLen {
